@@ -94,3 +94,18 @@ Definition xxmyy_mat (theta beta : R) : mat :=
 Definition rzx_tableQ (c s : Q) := rzx_table Q (0#1)%Q Qopp c s.
 Definition xxpyy_tableQ (c s cb sb : Q) := xxpyy_table Q (0#1)%Q (1#1)%Q Qmult Qopp c s cb sb.
 Definition xxmyy_tableQ (c s cb sb : Q) := xxmyy_table Q (0#1)%Q (1#1)%Q Qmult Qopp c s cb sb.
+
+(* --- unitarity of the 2x2 local factors ---------------------------------------------------- *)
+Definition Cconj (x : C) : C := (fst x, - snd x).
+(* K * K^dagger = I for a 2x2 matrix *)
+Definition unitary2 (K : mat) : Prop :=
+  forall i j, (i < 2)%nat -> (j < 2)%nat ->
+    Cadd (Cmul (K i 0%nat) (Cconj (K j 0%nat))) (Cmul (K i 1%nat) (Cconj (K j 1%nat))) = sI i j.
+(* the Hadamard gate *)
+Definition Hn : mat := mscale (/ sqrt 2) Hm.
+(* a gate matrix G is K1 * N(a,b,c) * K2 with K1 = A1 (x) B1, K2 = A2 (x) B2 local unitaries *)
+Definition local_conjugate_of_kak (G : mat) (a b c : R) : Prop :=
+  exists A1 B1 A2 B2 : mat,
+    unitary2 A1 /\ unitary2 B1 /\ unitary2 A2 /\ unitary2 B2 /\
+    forall i j, (i < 4)%nat -> (j < 4)%nat ->
+      G i j = mmul (mmul (kron A1 B1) (kak_mat a b c)) (kron A2 B2) i j.
